@@ -1230,7 +1230,7 @@ func (fc *FnCtx) backEdge(fr *Frame, st *State, li *loopInfo, from *ssa.BasicBlo
 // havocLoop forgets everything the loop body may modify.
 func (fc *FnCtx) havocLoop(fr *Frame, st *State, li *loopInfo) {
 	modCells := map[cellKey]types.Type{}
-	modHeaps := map[string]bool{}
+	modHeaps := writeSetT{}
 	special := map[cellKey]bool{}
 	definedInLoop := map[ssa.Value]bool{}
 	for b := range li.body {
@@ -1269,7 +1269,7 @@ func (fc *FnCtx) havocLoop(fr *Frame, st *State, li *loopInfo) {
 		case *ssa.Alloc, *ssa.MakeSlice, *ssa.MakeMap, *ssa.MakeChan, *ssa.MakeClosure, *ssa.MakeInterface:
 			special[keyAlloc] = true
 		}
-		for h := range instrWrites(fc.eng, instr) {
+		for h, kind := range instrWrites(fc.eng, instr) {
 			if strings.HasPrefix(h, "$") {
 				special[cellKey{0, h}] = true
 				if h == "$allocTop" {
@@ -1278,7 +1278,7 @@ func (fc *FnCtx) havocLoop(fr *Frame, st *State, li *loopInfo) {
 			} else if strings.HasPrefix(h, "ghost:") {
 				special[cellKey{0, strings.TrimPrefix(h, "ghost:")}] = true
 			} else {
-				modHeaps[h] = true
+				modHeaps.add(h, kind)
 			}
 		}
 		// address-taken locals passed to calls
@@ -1353,14 +1353,20 @@ func (fc *FnCtx) havocLoop(fr *Frame, st *State, li *loopInfo) {
 		special[keyAlloc] = true
 	}
 	// allocation pointer first: typing facts of havoc'd values refer to it
+	baseTop := fc.allocTop(st)
 	if special[keyAlloc] {
-		old := fc.allocTop(st)
 		n := fc.fresh("allocTop", SInt)
-		fc.assume(st, tGe(n, old))
+		fc.assume(st, tGe(n, baseTop))
 		st.cells[keyAlloc] = n
 	}
 	for _, h := range hs {
 		cur, ok := st.heaps[h]
+		if modHeaps[h] == wFresh {
+			// only freshly allocated objects are written inside the loop: older references keep their
+			// contents, and the heap term is unconstrained above the allocation pointer, so it already
+			// stands for any contents later iterations put into their own objects (see havocForContract)
+			continue
+		}
 		if !ok {
 			st.heaps[h+"$pending"] = Term{}
 			continue
